@@ -159,8 +159,7 @@ def add_cubic(u, cv):
                '({ %s has2 ==> res.unwrap().1.unwrap().v@ == t2 })' % lets]
         u.take(P, gh, a + '_inflections', C(
             ensures=ens,
-            body_subst=[('|t| { R::zero() < t && t < R::one() }',
-                         '|t: R| -> (r: bool) ensures r == (0real < t.v@ && t.v@ < 1real) { R::zero() < t && t < R::one() }')]))
+            closures=[('|t|', '|t: R| -> (r: bool) ensures r == (0real < t.v@ && t.v@ < 1real)', '')]))
         for kind in ('min', 'max'):
             u.take(P, gh, '%s_%s' % (kind, a), C(ensures=['({ %s %s res.v@ == tp })' % (lets, cubic_param_lets(cv, 'self', a, kind))]))
         u.take(P, gh, a + '_bounds', C(ensures=['({ %s %s res.0.v@ == tp })' % (lets, cubic_param_lets(cv, 'self', a, 'min')),
